@@ -17,7 +17,7 @@ TReset == /\ Ev("Reset")
           /\ pc' = [p \in Procs |-> "idle"] /\ op' = [p \in Procs |-> NoOp] /\ res' = [p \in Procs |-> "none"]
           /\ closed' = FALSE /\ started' = FALSE /\ role' = "none" /\ startMu' = "free"
           /\ lcred' = "c0" /\ rcred' = "" /\ gstate' = "new" /\ cyc' = <<>> /\ remotes' = {} /\ pendAdd' = {} /\ conn' = "New"
-          /\ handler' = Tr[l].handler
+          /\ handler' = Tr[l].handler /\ restarts' = 0
 Silent == /\ UNCHANGED l /\ l <= Len(Tr) /\ Tr[l].ev # "Reset"
           /\ ((\E p \in Procs : Step(p) \/ Step2(p)) \/ Internal)
 TNext == TInv \/ TRet \/ TReset \/ Silent
